@@ -248,6 +248,7 @@ impl C05 {
 impl UnitRunner for C05 {
   fn unit(&mut self, payload: &str, unit: u64, out: &mut WorkerOut) {
     if payload == "stdlib" { return self.stdlib_unit(unit, out); }
+    if payload == "define-kinds" { return define_kinds_unit(unit, out); }
     if !matches!(&self.level, Some((k, _)) if k == payload) {
       let txt = std::fs::read_to_string(payload).expect("level file");
       self.level = Some((payload.to_string(), serde_json::from_str::<Level>(&txt).unwrap()));
@@ -463,6 +464,7 @@ impl Check for C05 {
     let nk = super::c19::kernel_items().len() as u64;
     let before_calls = rep.out.evaluations;
     run_jobs(cfg, range_jobs("stdlib", nk, 1), &mut |ev| rep.absorb(ev));
+    run_jobs(cfg, range_jobs("define-kinds", 16, 1), &mut |ev| rep.absorb(ev));
     rep.out.extra.clear();
     let called = rep.out.sets.get("stdlib_functions_called").map(|s| s.len()).unwrap_or(0);
     rep.cov("stdlib_call_family", json!({"functions_and_operator_spellings": nk, "with_an_accepted_call": called, "calls": rep.out.evaluations - before_calls,
@@ -483,5 +485,60 @@ impl Check for C05 {
       "there is no separate model: traces_validated_against_impl = transitions executed on the real interpreter".into(),
     ];
     if transitions < 500 { rep.vacuity.push("too few transitions".into()); }
+  }
+}
+
+/// Definitions of every element kind in every definition form, each in a session that already holds bindings: a definition that succeeds
+/// defines exactly its names, one that fails for any reason (an unsupported kind included) defines nothing and changes nothing, and a
+/// definition of an existing name is rejected whatever its form.
+fn define_kinds_unit(unit: u64, out: &mut WorkerOut) {
+  let kinds = ["u8", "u16", "u32", "u64", "u128", "i8", "i16", "i32", "i64", "i128", "f32", "f64", "r64", "c64", "bool", "string"];
+  let kind = kinds[unit as usize % kinds.len()];
+  let lit = match kind { "bool" => "true", "string" => "\"s\"", "r64" => "3/4", "c64" => "1+2i", "f32" | "f64" => "2.5", _ => "5" };
+  let ann = |name: &str, shape: &str| match kind { "r64" | "c64" | "bool" | "string" => format!("{} := ", name), _ => format!("{}<{}{}> := ", name, if shape.is_empty() { kind.to_string() } else { format!("[{}]", kind) }, shape) };
+  let forms: Vec<(&str, String)> = vec![
+    ("define-scalar", format!("{}{}", ann("a", ""), lit)),
+    ("define-mutable-scalar", format!("~{}{}", ann("a", ""), lit)),
+    ("define-matrix", format!("{}[{} {} {}]", ann("a", " "), lit, lit, lit).replace("[ ", "[").replace(" ]>", "]>")),
+    ("define-sized-matrix", format!("{}[{} {} {}]", ann("a", ":1,3"), lit, lit, lit)),
+    ("define-column", format!("{}[{}; {}]", ann("a", " "), lit, lit).replace(" ]>", "]>")),
+    ("define-from-typed-variable", "a := k".to_string()),
+    ("define-mutable-from-typed-variable", "~a := k".to_string()),
+    ("define-from-formula", if kind == "bool" { "a := k && k".to_string() } else if kind == "string" { "a := k == k".to_string() } else { "a := k + k".to_string() }),
+    ("define-matrix-from-variable", "a := [k k]".to_string()),
+    ("define-tuple", "a := (k, 1)".to_string()),
+    ("define-set", "a := {k}".to_string()),
+    ("destructure", "(a, c) := (k, k)".to_string()),
+    ("define-annotated-from-variable", format!("{}k", ann("a", ""))),
+  ];
+  for (fname, stmt) in forms.iter() {
+    for pre_defined in [false, true] {
+      let mut s = Session::new();
+      if !s.run(&format!("{}{}", ann("k", ""), lit)).is_value() { out.count("define_kinds_setup_rejected"); continue; }
+      s.run("w := [1 2 3]"); s.run("~v := 7");
+      if pre_defined { s.run("a := 100"); }
+      let before = s.snapshot();
+      out.evaluations += 1; out.nontrivial += 1;
+      let o = s.run(stmt);
+      let after = s.snapshot();
+      let case = format!("{}{} ; w := [1 2 3] ; ~v := 7 ; {}{}", ann("k", ""), lit, if pre_defined { "a := 100 ; " } else { "" }, stmt);
+      let locus = format!("{}:{}", fname, kind);
+      match &o {
+        Outcome::Panic(m) => out.fail(format!("C05|abort|define-kinds:{}", locus), case, m.clone()),
+        Outcome::Value(_) => {
+          if pre_defined { out.fail(format!("C05|redefinition-accepted|define-kinds:{}", locus), case, format!("a was already defined; now {:?}", after.iter().find(|x| x.0 == "a").map(|x| x.2.short()))); }
+          else {
+            let others_same = before.iter().all(|b| after.iter().any(|a| a == b));
+            if !others_same { out.fail(format!("C05|other-binding-changed|define-kinds:{}", locus), case, format!("before {:?}, after {:?}", before.iter().map(|x| format!("{}={}", x.0, x.2.short())).collect::<Vec<_>>(), after.iter().map(|x| format!("{}={}", x.0, x.2.short())).collect::<Vec<_>>())); }
+            else if !after.iter().any(|x| x.0 == "a") { out.fail(format!("C05|binding-wrong|define-kinds:{}", locus), case, "the definition succeeded but a is not defined".into()); }
+            else { out.count("define_kinds_defined"); }
+          }
+        }
+        _ => {
+          if after != before { out.fail(format!("C05|failed-but-modified|define-kinds:{}", locus), case, format!("the statement failed ({}) but the bindings changed: before {:?}, after {:?}", o.short(), before.iter().map(|x| format!("{}={}", x.0, x.2.short())).collect::<Vec<_>>(), after.iter().map(|x| format!("{}={}", x.0, x.2.short())).collect::<Vec<_>>())); }
+          else { out.count(if pre_defined { "define_kinds_redefinition_rejected" } else { "define_kinds_rejected_cleanly" }); }
+        }
+      }
+    }
   }
 }
